@@ -327,12 +327,18 @@ pub fn phases(quick: bool) -> Result<Vec<Phase>, String> {
     });
     // 2. TrueType program enumeration
     let pre = ttprog::preludes();
-    let all_pre: Vec<usize> = (0..pre.len()).collect();
+    let all_pre: Vec<usize> = (0..ttprog::N_BASE_PRELUDES).collect();
+    let delta_pre = ttprog::delta_prelude_indices();
     let maxp_used: Vec<usize> = if quick { vec![0, 1] } else { vec![0, 1, 2] };
-    let mut tt = ttprog::gen_cases(2, &all_pre, &maxp_used);
+    // ppem-coupled delta preludes (exceptions that fire at the hinted size), small maxp limits only: with
+    // zero/one limits the pushes of the prelude already overflow the value stack. They come first in the
+    // enumeration order: c20 executes this phase under a wall budget, in enumeration order.
+    let mut tt = ttprog::gen_cases(2, &delta_pre, &[0]);
+    tt.extend(ttprog::gen_cases(2, &all_pre, &maxp_used));
     let mut bounds = vec![(
         "ttprog.length2".to_string(),
-        json!({"slots": ttprog::SLOTS, "preludes": pre.iter().map(|p| p.0).collect::<Vec<_>>(),
+        json!({"slots": ttprog::SLOTS, "preludes": all_pre.iter().map(|i| pre[*i].0.clone()).collect::<Vec<_>>(),
+            "delta_preludes (maxp small only)": delta_pre.iter().map(|i| pre[*i].0.clone()).collect::<Vec<_>>(),
             "maxp": maxp_used.iter().map(|i| ttprog::MAXP_SETTINGS[*i].0).collect::<Vec<_>>(), "opcodes": 256,
             "programs_per_slot_prelude_maxp": 1 + 256 + 65536, "sizes": ttprog::SIZES, "targets": ["Mono", "Smooth Normal"], "pedantic": [false, true]}),
     )];
@@ -344,7 +350,7 @@ pub fn phases(quick: bool) -> Result<Vec<Phase>, String> {
         let t3: Vec<Value> = ttprog::gen_cases(3, &n3_pre, &n3_maxp).into_iter().filter(|c| !c["o1"].is_null()).collect();
         bounds.push((
             "ttprog.length3".to_string(),
-            json!({"preludes": n3_pre.iter().map(|i| pre[*i].0).collect::<Vec<_>>(),
+            json!({"preludes": n3_pre.iter().map(|i| pre[*i].0.clone()).collect::<Vec<_>>(),
                 "maxp": n3_maxp.iter().map(|i| ttprog::MAXP_SETTINGS[*i].0).collect::<Vec<_>>(), "programs_per_slot_prelude_maxp": 16_777_216u64}),
         ));
         tt.extend(t3);
